@@ -168,6 +168,14 @@ def rand_composite(rng, path_mode, max_inc=4, max_exc=3):
                 first = ('raw', f'{x}[{neg}{a}', L(x + '[' + neg + a))
                 second = ('raw', f'{b}/]{y}', L(b) + (('sep', '/'),) + L(']' + y))
                 singles[0:2] = [first, second]
+            if k >= 2 and how == 'split' and rng.random() < 0.12 and not any('[' in ser_single(t) or '(' in ser_single(t) for t in singles[:-2]):
+                # a group that is never closed is plain text: the `|` behind it splits, also when a bracket follows
+                t_ = rng.choice('@*+?')
+                x, a, b = (rng.choice('abc') for _ in range(3))
+                neg = rng.choice(('', '!'))
+                first = ('raw', f'{t_}({x}', L(f'{t_}({x}')) if t_ in '@+' else ('raw', f'{x}{t_}({x}', L(x) + ((('star',),) if t_ == '*' else (('q',),)) + L('(' + x))
+                second = ('raw', f'[{neg}{a}]{b}', (('set', bool(neg), (('c', a),)),) + L(b))
+                singles[-2:] = [first, second]
             text, pairs, need = build_text(rng, singles, how)
             out.append((text, pairs, need))
             remaining -= k
